@@ -400,5 +400,158 @@ theorem mkNodes_ok (f : FatTree) (hf : f.WF) : NodesOk f f.mkNodes := by
       exact ⟨by omega, j, hj, by rw [levelStart_eq]; exact hcj, rfl⟩
     · cases h
 
+/-! ### the folds of `build_upper_levels` / `connect_node_to_parents` / `add_internal_link` -/
+
+abbrev Entry := Nat × Nat × FLink
+abbrev St := Nat × List Entry × List Entry
+
+/-- one `add_internal_link` (innermost loop, over the `num_port_lower_level_[level]` cables of one parent/child pair) -/
+def stepJ (f : FatTree) (ci pi : Nat) (child parent : FNode) (st : St) (j : Nat) : St :=
+  (st.1 + 1,
+   (pi, child.label.getD child.level 0 + j * f.down.getD child.level 0, (⟨ci, pi, st.1⟩ : FLink)) :: st.2.1,
+   (ci, parent.label.getD child.level 0 + j * f.up.getD child.level 0, (⟨ci, pi, st.1⟩ : FLink)) :: st.2.2)
+
+/-- one candidate parent of `connect_node_to_parents` -/
+def stepP (f : FatTree) (nodes : List FNode) (ci : Nat) (child : FNode) (st : St) (pi : Nat) : St :=
+  match nodes[pi]? with
+  | none => st
+  | some parent =>
+    if areRelated f.levels parent child then
+      (List.range (f.count.getD child.level 0)).foldl (stepJ f ci pi child parent) st
+    else st
+
+/-- one `connect_node_to_parents(node)` -/
+def stepC (f : FatTree) (nodes : List FNode) (st : St) (ci : Nat) : St :=
+  match nodes[ci]? with
+  | none => st
+  | some child =>
+    ((List.range (f.nodesByLevel.getD (child.level + 1) 0)).map (fun i => levelStart f (child.level + 1) + i)).foldl
+      (stepP f nodes ci child) st
+
+def buildSt (f : FatTree) (nodes : List FNode) : St :=
+  (List.range (levelStart f f.levels)).foldl (stepC f nodes) (f.uidOff, [], [])
+
+theorem build_eq (f : FatTree) :
+    f.build = ⟨f.mkNodes, (buildSt f f.mkNodes).2.1, (buildSt f f.mkNodes).2.2⟩ := rfl
+
+/-- a stored `children[port]` entry is a genuine tree edge -/
+def GoodC (f : FatTree) (nodes : List FNode) (e : Entry) : Prop :=
+  ∃ child parent j, nodes[e.2.2.child]? = some child ∧ nodes[e.2.2.parent]? = some parent ∧
+    areRelated f.levels parent child = true ∧ e.1 = e.2.2.parent ∧
+    e.2.1 = child.label.getD child.level 0 + j * f.down.getD child.level 0
+
+/-- a stored `parents[port]` entry is a genuine tree edge -/
+def GoodP (f : FatTree) (nodes : List FNode) (e : Entry) : Prop :=
+  ∃ child parent j, nodes[e.2.2.child]? = some child ∧ nodes[e.2.2.parent]? = some parent ∧
+    areRelated f.levels parent child = true ∧ e.1 = e.2.2.child ∧
+    e.2.1 = parent.label.getD child.level 0 + j * f.up.getD child.level 0
+
+def Inv (f : FatTree) (nodes : List FNode) (st : St) : Prop :=
+  (∀ e ∈ st.2.1, GoodC f nodes e) ∧ (∀ e ∈ st.2.2, GoodP f nodes e)
+
+theorem stepJ_inv (f : FatTree) (nodes : List FNode) {ci pi : Nat} {child parent : FNode}
+    (hc : nodes[ci]? = some child) (hp : nodes[pi]? = some parent) (hr : areRelated f.levels parent child = true)
+    (st : St) (j : Nat) (h : Inv f nodes st) : Inv f nodes (stepJ f ci pi child parent st j) := by
+  constructor
+  · intro e he
+    simp only [stepJ, List.mem_cons] at he
+    rcases he with rfl | he
+    · exact ⟨child, parent, j, hc, hp, hr, rfl, rfl⟩
+    · exact h.1 e he
+  · intro e he
+    simp only [stepJ, List.mem_cons] at he
+    rcases he with rfl | he
+    · exact ⟨child, parent, j, hc, hp, hr, rfl, rfl⟩
+    · exact h.2 e he
+
+theorem stepP_inv (f : FatTree) (nodes : List FNode) {ci : Nat} {child : FNode} (hc : nodes[ci]? = some child)
+    (st : St) (pi : Nat) (h : Inv f nodes st) : Inv f nodes (stepP f nodes ci child st pi) := by
+  unfold stepP
+  split
+  · exact h
+  · rename_i parent hp
+    split
+    · rename_i hr
+      exact foldl_inv _ (Inv f nodes) _ (fun st j _ hst => stepJ_inv f nodes hc hp hr st j hst) st h
+    · exact h
+
+theorem stepC_inv (f : FatTree) (nodes : List FNode) (st : St) (ci : Nat) (h : Inv f nodes st) :
+    Inv f nodes (stepC f nodes st ci) := by
+  unfold stepC
+  split
+  · exact h
+  · rename_i child hc
+    exact foldl_inv _ (Inv f nodes) _ (fun st pi _ hst => stepP_inv f nodes hc st pi hst) st h
+
+/-- **every stored port entry is a genuine tree edge** (any parameters, any node table) -/
+theorem buildSt_inv (f : FatTree) (nodes : List FNode) : Inv f nodes (buildSt f nodes) := by
+  unfold buildSt
+  refine foldl_inv _ (Inv f nodes) _ (fun st ci _ hst => stepC_inv f nodes st ci hst) _ ⟨?_, ?_⟩
+  · intro e he; simp at he
+  · intro e he; simp at he
+
+/-- the folds only cons -/
+def Mono (st st' : St) : Prop := (∀ e ∈ st.2.1, e ∈ st'.2.1) ∧ (∀ e ∈ st.2.2, e ∈ st'.2.2)
+
+theorem Mono.refl (st : St) : Mono st st := ⟨fun _ h => h, fun _ h => h⟩
+theorem Mono.trans {a b c : St} (h1 : Mono a b) (h2 : Mono b c) : Mono a c :=
+  ⟨fun e h => h2.1 e (h1.1 e h), fun e h => h2.2 e (h1.2 e h)⟩
+
+theorem foldl_mono {α : Type} (step : St → α → St) (hs : ∀ st x, Mono st (step st x)) (xs : List α) (st : St) :
+    Mono st (xs.foldl step st) :=
+  foldl_inv step (Mono st) xs (fun st' x _ h => Mono.trans h (hs st' x)) st (Mono.refl st)
+
+theorem stepJ_mono (f : FatTree) (ci pi : Nat) (child parent : FNode) (st : St) (j : Nat) :
+    Mono st (stepJ f ci pi child parent st j) :=
+  ⟨fun _ he => List.mem_cons_of_mem _ he, fun _ he => List.mem_cons_of_mem _ he⟩
+
+theorem stepP_mono (f : FatTree) (nodes : List FNode) (ci : Nat) (child : FNode) (st : St) (pi : Nat) :
+    Mono st (stepP f nodes ci child st pi) := by
+  unfold stepP
+  split
+  · exact Mono.refl st
+  · split
+    · exact foldl_mono _ (stepJ_mono f ci pi child _) _ st
+    · exact Mono.refl st
+
+theorem stepC_mono (f : FatTree) (nodes : List FNode) (st : St) (ci : Nat) : Mono st (stepC f nodes st ci) := by
+  unfold stepC
+  split
+  · exact Mono.refl st
+  · exact foldl_mono _ (stepP_mono f nodes ci _) _ st
+
+/-- the tables hold a cable `ci -> pi` at `children[pc]` of `pi` and at `parents[pp]` of `ci` -/
+def Has (ci pi pc pp : Nat) (st : St) : Prop :=
+  (∃ uid, (pi, pc, (⟨ci, pi, uid⟩ : FLink)) ∈ st.2.1) ∧ (∃ uid, (ci, pp, (⟨ci, pi, uid⟩ : FLink)) ∈ st.2.2)
+
+theorem Has.mono {ci pi pc pp : Nat} {st st' : St} (h : Has ci pi pc pp st) (hm : Mono st st') : Has ci pi pc pp st' :=
+  ⟨h.1.elim fun u hu => ⟨u, hm.1 _ hu⟩, h.2.elim fun u hu => ⟨u, hm.2 _ hu⟩⟩
+
+/-- **every related pair gets its cables**: for a node `ci` below the top level, a related node among those scanned
+(`levelStart (level+1) + i`, `i < nodes_by_level[level+1]`) and `j < num_port_lower_level[level]` -/
+theorem buildSt_reach (f : FatTree) (nodes : List FNode) (ci : Nat) (child : FNode)
+    (hci : ci < levelStart f f.levels) (hc : nodes[ci]? = some child) (i : Nat) (hi : i < bl f (child.level + 1))
+    (parent : FNode) (hp : nodes[levelStart f (child.level + 1) + i]? = some parent)
+    (hr : areRelated f.levels parent child = true) (j : Nat) (hj : j < f.count.getD child.level 0) :
+    Has ci (levelStart f (child.level + 1) + i) (child.label.getD child.level 0 + j * f.down.getD child.level 0)
+      (parent.label.getD child.level 0 + j * f.up.getD child.level 0) (buildSt f nodes) := by
+  unfold buildSt
+  refine foldl_reach (stepC f nodes) (Has ci _ _ _) _ ci (List.mem_range.mpr hci) ?_ ?_ _
+  · intro st
+    simp only [stepC, hc]
+    refine foldl_reach (stepP f nodes ci child) (Has ci _ _ _) _ (levelStart f (child.level + 1) + i)
+      (List.mem_map.mpr ⟨i, List.mem_range.mpr hi, rfl⟩) ?_ ?_ _
+    · intro st
+      simp only [stepP, hp, hr, if_true]
+      refine foldl_reach (stepJ f ci _ child parent) (Has ci _ _ _) _ j (List.mem_range.mpr hj) ?_ ?_ _
+      · intro st
+        exact ⟨⟨st.1, List.mem_cons.mpr (Or.inl rfl)⟩, ⟨st.1, List.mem_cons.mpr (Or.inl rfl)⟩⟩
+      · intro st y h
+        exact h.mono (stepJ_mono f ci _ child parent st y)
+    · intro st y h
+      exact h.mono (stepP_mono f nodes ci child st y)
+  · intro st y h
+    exact h.mono (stepC_mono f nodes st y)
+
 end FTBuild
 end SgVerif.C26
